@@ -1765,6 +1765,43 @@ verdict_t check_predict(const predict_case_t& c, ctx_t& ctx)
         alone[t] = run_predict(model, dataset, samples[t], c.modes[t] & 1, buffer);
     }
 
+    // evaluate(): the const entry point that runs the model's predictions batch by batch on the dataset's OWN pool (one caller):
+    // errors and loss values are those of a dataset without worker threads, bit for bit. (Linear models with linear::batch < 100
+    // are left out: there the prediction of a 100-sample batch submits to the pool it runs on, which dead-locks - DESIGN.md
+    // section 9, observations.)
+    if (c.pool >= 2 && (!cfg.is_linear() || cfg.batch >= 100))
+    {
+        std::vector<int> all;
+        while (all.size() < 260)
+        {
+            for (const auto& list : c.lists)
+            {
+                all.insert(all.end(), list.begin(), list.end());
+            }
+        }
+        const auto lsamples = to_indices(all);
+        const auto loss     = make_loss(cfg, target_kind_of(c.data));
+        auto       rserial  = nano::dataset_t{*source, 1U};
+        add_identity_generators(rserial);
+        const nano::dataset_t& serial = rserial;
+        const auto run_evaluate = [&](const nano::dataset_t& ds)
+        {
+            return record([&](std::vector<double>& out) { append(out, model.evaluate(ds, lsamples, *loss)); });
+        };
+        const auto e1 = run_evaluate(serial);
+        watch_dataset_pool(&dataset);
+        install_delays(c.delays);
+        const auto en = run_evaluate(dataset);
+        remove_delays();
+        watch_dataset_pool(nullptr);
+        if (!same_outcome(e1, en))
+        {
+            return verdict_t::violation(cat("C18/predict/evaluate/", e1.threw != en.threw ? "exception-differs" : "result-differs"),
+                                        cat("dataset pool 1 against ", c.pool, ": ", describe(e1, en)));
+        }
+        ctx.label("evaluate-on-the-dataset-pool");
+    }
+
     overlap_t                    overlap;
     std::vector<thread_report_t> reports(n);
     watch_dataset_pool(&dataset);
